@@ -144,6 +144,22 @@ func c09Corpus() []c09Input {
 		cs = append(cs, c09Input{Entry: e, Schema: "zero", Req: []byte("mutation { s } subscription S { s }"), Op: "S", Tags: []string{"zero-schema"}})
 		cs = append(cs, c09Input{Entry: e, Schema: "fixed", Req: []byte("{ s a { id } }"), NilCtx: true, RootNil: true, Tags: []string{"nil-context", "nil-root"}})
 	}
+	// operations of a kind the schema does not support (query root only), with fragments at the root
+	for _, e := range []string{"do", "subscribe", "cache", "cachenorm", "validate", "plan", "execute", "executeplan", "execsub"} {
+		for _, req := range []string{
+			`mutation { set(v: 1) }`, `subscription { tick }`, `mutation { ... on Q { s } }`,
+			`mutation { ... on Node { id } }`, `subscription { ...F } fragment F on U { __typename }`,
+			`mutation M { ...F } fragment F on Node { id self { id } }`,
+			`mutation { ... { s } ... on R { r } ...G } fragment G on Q { a { ... on Node { id } } }`,
+			`query A { s } mutation B { ... on Node { id } } subscription C { ... on U { __typename } }`,
+		} {
+			cs = append(cs, c09Input{Entry: e, Schema: "queryonly", Req: []byte(req), Tags: []string{"unsupported-operation-kind"}})
+			if strings.HasPrefix(req, "query A") {
+				cs = append(cs, c09Input{Entry: e, Schema: "queryonly", Req: []byte(req), Op: "B", Tags: []string{"unsupported-operation-kind"}})
+				cs = append(cs, c09Input{Entry: e, Schema: "queryonly", Req: []byte(req), Op: "C", Tags: []string{"unsupported-operation-kind"}})
+			}
+		}
+	}
 	// API-level cases with their own driver
 	api := func(name string, f func(in *c09Input) *c09Obs, tags ...string) {
 		cs = append(cs, c09Input{Entry: "api-" + name, Schema: "fixed", Req: []byte(name), run: f, Tags: tags})
@@ -362,6 +378,9 @@ func c09PickOp(r *Rng) string {
 func c09BytesInput(r *Rng) *c09Input {
 	seeds := c09SeedTexts()
 	in := &c09Input{Schema: "fixed"}
+	if r.Chance(12) {
+		in.Schema = "queryonly"
+	}
 	in.Entry = []string{"do", "do", "do", "subscribe", "cache", "cachenorm", "parseprint"}[r.Intn(7)]
 	switch c := r.Intn(100); {
 	case c < 8:
@@ -420,6 +439,9 @@ func c09BytesInput(r *Rng) *c09Input {
 func c09AstInput(r *Rng) *c09Input {
 	seeds := c09SeedTexts()
 	in := &c09Input{Schema: "fixed"}
+	if r.Chance(12) {
+		in.Schema = "queryonly"
+	}
 	in.Entry = []string{"validate", "plan", "execute", "execute", "executeplan", "execsub"}[r.Intn(6)]
 	in.Req = seeds[r.Intn(len(seeds))]
 	in.MutSeed = r.Next()
